@@ -6,3 +6,13 @@ EXTRA_CANDIDATES = {
     # needed by durchschn_entgeltp (divides by age_of_retirement - 16 years)
     "age_of_retirement": [("older than 16 at retirement", lambda r: r > 16)],
 }
+
+
+# Caps the parameters encode directly for one column (C16): the column never exceeds the parameter.
+# (node, parameter group, path below the group). Each entry was provable on the tree the contract was
+# written for; it is an obligation from then on, not a candidate.
+PARAM_CAPS = [
+    ("_arbeitsl_geld_2_alleinerz_mehrbedarf_m", "arbeitsl_geld_2", ("mehrbedarf_anteil", "max")),
+    ("_arbeitsl_geld_2_warmmiete_pro_qm_m", "arbeitsl_geld_2", ("max_miete_pro_qm", "max")),
+    ("eink_st_abz_betreuungskost_y", "eink_st_abzuege", ("kinderbetreuungskosten_abz_maximum",)),
+]
